@@ -48,6 +48,20 @@ PROPS = {
             "lzma_filter_flags_decode moving *in_pos on failure (filter.h says it does not) is counted as a note, not asserted",
             "seed corpus corpus/C04 = output of VERIF_C04_MAKE_SEEDS=<dir> build/bin/t_c04 (191 cases from tests/files) + regression inputs"],
     ),
+    "C05": dict(
+        engine="fuzz", level="fault_enumeration",
+        technique="fault enumeration inside a libFuzzer target: for each generated small valid file EVERY single-bit flip, EVERY truncation length and every byte of every CRC32-protected structure (x4 value changes, CRC32 recomputed) is applied, plus case-chosen overwrite/insert/delete/duplicate; decoders: single-threaded with/without CONCATENATED, auto, threaded; oracle from the property's three clauses with the field layout taken from the independent parser",
+        level_text="Per generated base file the single-bit-flip, truncation and CRC-consistent-field-damage spaces are enumerated completely (a 300-byte file: 2400 flips + 300 truncations + ~200 CRC-fixed edits, each through 2-4 decoder settings); base files themselves (container, check, Blocks, Streams, padding, size fields, .lzma/.lz variants, plaintext) are sampled by the generator.",
+        level_note="Trusted: ref/xzparse.h only for (a) the field layout of the UNDAMAGED file (payload vs non-payload byte ranges, Stream ends) and (b) deciding whether a multi-byte / CRC-consistent edit left a still-valid file; clause 1 and 3 need no reference. Random payload corruption passing CRC32 and the range-coder end state has probability ~2^-64 and is ignored. .lzma carries no integrity check: only the truncation clause is applied to it, and for known-size-without-marker files (no terminator in the format) only clause 1.",
+        targets=[dict(name="t_c05", quick_runs=640, quick_workers=8, thorough_runs=40000, max_len=64, min_nontrivial_quick=100, min_nontrivial_thorough=5000)],
+        rule=("base file = .xz (1-2 Streams x 1-3 Blocks, check CRC32/CRC64/SHA-256/None, with or without Block size fields, optional delta, Stream Padding between/after), .lz (version 0/1, 1-2 members, built by hand around a raw LZMA1 stream) or .lzma (unknown size + marker, known size with/without marker); plaintext 0..4 KiB so files are ~30..700 bytes. "
+              "Faults: every single-bit flip; every truncation length; for .xz every byte of Stream Flags / Block Headers / Index / footer fields changed 4 ways with the CRC32 recomputed; 4-32 case-chosen multi-byte overwrites, insertions, deletions, duplications. "
+              "Oracle: (1) LZMA_STREAM_END => bytes == plaintext of a whole number of leading Streams/members [files with a Check, .lz]; (2) .xz damage wholly outside the compressed payload => error; (3) a cut inside a Stream/member is never LZMA_STREAM_END (cuts at Stream boundaries / in padding at multiples of 4 / < 4 bytes after a .lz member are valid shorter files); "
+              "CRC-consistent edits: reference parser rejects => decoder must fail, accepts => decoder must succeed with the same bytes. Non-trivial: every (file, fault) pair whose bytes differ from the original (counted in bulk: coverage.nontrivial); distinct_nontrivial counts distinct base files."),
+        assumptions=BASE_ASSUME + ["the threaded decoder is run for every truncation and CRC-consistent edit and for 2 of the 8 bit flips of each byte (thread start-up cost)",
+                                   "unsupported Check IDs are not generated (their Check field is unverifiable by design)"],
+        exhaustive_note="exhaustive per generated base file: all single-bit flips, all truncation lengths, all bytes of all CRC32-protected .xz structures x 4 value changes with the CRC32 recomputed",
+    ),
     "C06": dict(
         engine="fuzz", level="exploration",
         technique="coverage-guided structured fuzzing (libFuzzer) with a metamorphic oracle: any slicing == one shot; encoder determinism differential",
